@@ -148,6 +148,16 @@ var kinds = map[string]kindDef{
 		return pick(v, enctypes.Ma{}, enctypes.Ma{N: 1, B: &enctypes.Mb{S: "b", A: &enctypes.Ma{N: 2, B: &enctypes.Mb{S: "c"}}, As: []enctypes.Ma{{N: 3}, {N: 4, B: &enctypes.Mb{}}}}},
 			enctypes.Ma{N: 1, B: &enctypes.Mb{S: "b"}})
 	}},
+	// embedded self pointers (every encoder used to die with a stack overflow while building the field plan)
+	"EN": {typ: reflect.TypeOf(enctypes.EN{}), isolate: true, val: func(v string) any {
+		return pick(v, enctypes.EN{}, enctypes.EN{EN: &enctypes.EN{V: 3}, V: 2}, enctypes.EN{V: 2})
+	}},
+	"*EN": {typ: reflect.TypeOf((*enctypes.EN)(nil)), isolate: true, val: func(v string) any {
+		return pick(v, (*enctypes.EN)(nil), &enctypes.EN{EN: &enctypes.EN{V: 3}, V: 2}, &enctypes.EN{V: 2})
+	}},
+	"EA": {typ: reflect.TypeOf(enctypes.EA{}), isolate: true, val: func(v string) any {
+		return pick(v, enctypes.EA{}, enctypes.EA{EB: &enctypes.EB{EA: &enctypes.EA{X: 3}, Y: 2}, X: 1}, enctypes.EA{EB: &enctypes.EB{Y: 2}, X: 1})
+	}},
 	// full-precision numerics in by-value positions (member, slice element, map element) and behind a pointer
 	"N":  {typ: reflect.TypeOf(enctypes.N1{}), val: func(v string) any { return pick(v, enctypes.N1{}, n1(), enctypes.N1{Nf: -1e-300, Ni: -16777217}) }},
 	"*N": {typ: reflect.TypeOf((*enctypes.N1)(nil)), val: func(v string) any { x := n1(); return pick(v, (*enctypes.N1)(nil), &x, &enctypes.N1{}) }},
@@ -580,9 +590,36 @@ func project(rv reflect.Value) tvNode {
 			}
 			fs = append(fs, tf)
 		}
-		return tvNode{"g": "struct", "name": t.Name(), "pkg": t.PkgPath(), "fname": t.PkgPath() + "/" + t.Name(), "f": fs}
+		n := tvNode{"g": "struct", "name": t.Name(), "pkg": t.PkgPath(), "fname": t.PkgPath() + "/" + t.Name(), "f": fs}
+		if embedsItself(t, t, 0) {
+			n["cyc"] = true // the type embeds a pointer to itself, directly or through other embedded structs (type identity is a harness fact)
+		}
+		return n
 	}
 	return tvNode{"g": "other"}
+}
+
+func embedsItself(root, t reflect.Type, depth int) bool {
+	if depth > 6 {
+		return false
+	}
+	for i := 0; i < t.NumField(); i++ {
+		f := t.Field(i)
+		if !f.Anonymous {
+			continue
+		}
+		ft := f.Type
+		if ft.Kind() == reflect.Ptr {
+			ft = ft.Elem()
+		}
+		if ft.Kind() != reflect.Struct {
+			continue
+		}
+		if ft == root || embedsItself(root, ft, depth+1) {
+			return true
+		}
+	}
+	return false
 }
 
 func namedScalar(t reflect.Type) string {
